@@ -112,27 +112,34 @@ pub enum WriteAns {
     Error,
 }
 
-pub struct FaultySink<'a> {
+#[derive(Default, Debug)]
+pub struct SinkState {
     pub out: Vec<u8>,
+    pub calls: u32,
+    pub flushes: u32,
+    pub failed: bool,
+    pub error_at: Option<u32>,
+    pub benign_devs: u32,
+}
+
+/// Sink whose state outlives the writer that owns it (the writer may be lost on error).
+pub struct FaultySink<'a> {
+    st: &'a RefCell<SinkState>,
     ctx: &'a RefCell<Ctx>,
     menu: &'a [WriteAns],
-    failed: bool,
-    pub calls: u32,
-    pub error_at: Option<u32>,
-    pub flush_fail: bool,
-    pub flushes: u32,
 }
 
 impl<'a> FaultySink<'a> {
-    pub fn new(ctx: &'a RefCell<Ctx>, menu: &'a [WriteAns]) -> Self {
-        Self { out: vec![], ctx, menu, failed: false, calls: 0, error_at: None, flush_fail: false, flushes: 0 }
+    pub fn new(st: &'a RefCell<SinkState>, ctx: &'a RefCell<Ctx>, menu: &'a [WriteAns]) -> Self {
+        Self { st, ctx, menu }
     }
 }
 
 impl Write for FaultySink<'_> {
     fn write(&mut self, buf: &[u8]) -> io::Result<usize> {
-        self.calls += 1;
-        if self.failed {
+        let mut st = self.st.borrow_mut();
+        st.calls += 1;
+        if st.failed {
             return Err(io::Error::new(INJECTED_KIND, "injected write error"));
         }
         if buf.is_empty() {
@@ -141,23 +148,28 @@ impl Write for FaultySink<'_> {
         let ans = self.menu[self.ctx.borrow_mut().point(self.menu.len() as u32) as usize];
         let n = match ans {
             WriteAns::All => buf.len(),
-            WriteAns::One => 1,
+            WriteAns::One => {
+                st.benign_devs += 1;
+                1
+            }
             WriteAns::Interrupted => {
+                st.benign_devs += 1;
                 return Err(io::Error::new(ErrorKind::Interrupted, "injected interrupt"));
             }
             WriteAns::Error => {
-                self.failed = true;
-                self.error_at = Some(self.calls);
+                st.failed = true;
+                st.error_at = Some(st.calls);
                 return Err(io::Error::new(INJECTED_KIND, "injected write error"));
             }
         };
-        self.out.extend_from_slice(&buf[..n]);
+        st.out.extend_from_slice(&buf[..n]);
         Ok(n)
     }
 
     fn flush(&mut self) -> io::Result<()> {
-        self.flushes += 1;
-        if self.failed {
+        let mut st = self.st.borrow_mut();
+        st.flushes += 1;
+        if st.failed {
             return Err(io::Error::new(INJECTED_KIND, "injected write error"));
         }
         Ok(())
